@@ -22,7 +22,7 @@ theorem getPins_orth (T : SliderTables) (bd : Board) (hc : Consistent bd) (p : P
   intro q
   unfold orthSliders rooksOf queensOf
   rw [mem_or, Bool.or_eq_true, show bd.rooks = bd.byKind .rook from rfl,
-    show bd.queens = bd.byKind .queen from rfl, mem_piecesOf bd hc, mem_piecesOf bd hc]
+    show bd.queens = bd.byKind .queen from rfl, mem_kindOf bd hc, mem_kindOf bd hc]
 
 theorem getPins_diag (T : SliderTables) (bd : Board) (hc : Consistent bd) (p : Player) (k x : Sq) :
     mem (getPins bd p k).2 x = true ↔ ∃ q, SliderGeo bd.squares p.other .bishop Dir.diagonal k q ∧
@@ -32,7 +32,7 @@ theorem getPins_diag (T : SliderTables) (bd : Board) (hc : Consistent bd) (p : P
   intro q
   unfold diagSliders bishopsOf queensOf
   rw [mem_or, Bool.or_eq_true, show bd.bishops = bd.byKind .bishop from rfl,
-    show bd.queens = bd.byKind .queen from rfl, mem_piecesOf bd hc, mem_piecesOf bd hc]
+    show bd.queens = bd.byKind .queen from rfl, mem_kindOf bd hc, mem_kindOf bd hc]
 
 /-! ### membership helpers -/
 
@@ -82,7 +82,7 @@ theorem knight_moves_exact (bd : Board) (p : Player) (k : Sq) (c : Ctx bd p k) (
       inCheck (applyBoard bd.squares p m) p = false := by
   have hc := c.cons
   have hknight : ∀ s, mem (bd.knightsOf p) s = true ↔ at' bd.squares s = some ⟨.knight, p⟩ := fun s =>
-    mem_piecesOf bd hc .knight p s
+    mem_kindOf bd hc .knight p s
   -- legality of one knight step
   have hlegal : ∀ (s t : Sq) (δ : Int × Int) (m : Move), at' bd.squares s = some ⟨.knight, p⟩ →
       δ ∈ knightDeltas → offset s δ.1 δ.2 = some t →
